@@ -136,6 +136,15 @@ AIsZero(orv, site) ==
               expect |-> [plain |-> IsZeroOutcome(orv, FALSE), checked |-> IsZeroOutcome(orv, TRUE)]]
   /\ phase' = "judged" /\ UNCHANGED wire
 
+\* Default values: what every codec and every consumer does with them.  The defaults are the identity
+\* point / the zero scalar / empty payloads, so: they survive serde; the byte conversions of the
+\* secret-like types refuse them (zero); no consumer accepts them as valid and none aborts.
+HasDefault(t) == t \notin {"SecretKeyShare", "PublicKeyShare", "SignDecryptionShare", "ElGamalDecryptionShare"}
+ADefault(t) ==
+  /\ phase = "idle" /\ HasDefault(t)
+  /\ last' = [act |-> "Default", type |-> t, expect |-> [res |-> "Ok", bytes |-> IF Types[t].secret THEN "Err" ELSE "Ok"]]
+  /\ phase' = "judged" /\ UNCHANGED wire
+
 AReset == phase = "judged" /\ phase' = "idle" /\ wire' = NoWire /\ last' = Quiet
 
 VClassOk(t, vc) ==
@@ -149,6 +158,7 @@ VClassOk(t, vc) ==
 Next ==
   \/ (phase = "idle" /\ \E t \in TypeNames, c \in Codecs : \E v \in Types[t].variants, vc \in {x \in VClasses : VClassOk(t, x)} : AEncode(t, c, v, vc))
   \/ (phase = "wire" /\ \E m \in Mutations(wire.type, wire.codec) : (wire.vclass = "generic" \/ m.kind = "none") /\ ADecode(m))
+  \/ (phase = "idle" /\ \E t \in TypeNames : ADefault(t))
   \/ (phase = "idle" /\ \E orv \in 0..255, site \in {"sk_be", "sk_le", "sk_try_from", "enum_be", "secret_be", "challenge_le"} : AIsZero(orv, site))
   \/ AReset
 
